@@ -242,8 +242,8 @@ func c13Skeletons() []c13skel {
 
 type c13case struct {
 	Layer, Kind, Role, Skel, Val string
-	mk                         func(v interface{}) interface{}
-	v                          interface{}
+	mk                           func(v interface{}) interface{}
+	v                            interface{}
 }
 
 // Doc builds the case's document (fresh copy).
@@ -949,6 +949,11 @@ func c13Supervise(w *lib.Worker) {
 func c13Account(w *lib.Worker, c c13case, r c13result, report func(c13case, int, c13viol)) {
 	w.Eval(int64(r.Calls))
 	w.AddTraces(1)
+	w.AddStates(1)             // one explored case = one (input, role, layer, state) point of the input space
+	w.AddTrans(int64(r.Calls)) // guarded calls executed on the real code
+	if r.Idx%4999 == 0 {
+		w.Sample(map[string]interface{}{"case": c.String(), "calls": r.Calls, "accepted": r.Accepted, "rejected": r.Rejected})
+	}
 	w.Count("calls-accepted", int64(r.Accepted))
 	w.Count("calls-rejected", int64(r.Rejected))
 	if r.Hang {
@@ -967,7 +972,7 @@ func init() {
 		ID:    "C13",
 		Level: "model_checking",
 		Rule: "bounded-exhaustive input enumeration: (skeleton x value) documents - a hole at each reserved position (rule/when/pattern/condition/action(s)/code/schedule/expires/ttl/deleteWith/id/!props/and/or/not/trigger!/evaluate!/location(s)/inherited/uri/variable-looking keys) filled with every JSON value of the pool (7 leaves, all containers of them to nesting 2 (3 thorough) incl. empty and heterogeneous, variable-looking keys, 100- and 3000-deep nests) - in the roles fact, rule, pattern, query, event and whole HTTP request body, at the layers core.Location, sys.System (+cron hooks), service.HTTPService.ServeHTTP, both states; each on a fresh pre-populated location followed by 7 canary operations; child-process isolation with journal, recover, watchdog (hang and crash re-run alone to confirm); " +
-			"traces = cases (input x layer x state), evaluations = guarded calls, non-trivial = cases in which at least one call accepted the input",
+			"states = traces = cases (input x role x layer x state), transitions = evaluations = guarded calls on the real code, non-trivial = cases in which at least one call accepted the input",
 		Assumptions: []string{
 			"a call that does not return within 15 s (60 s when re-run alone) on an otherwise idle child is a hang; every call in this language normally takes well under a millisecond",
 			"the virtual clock is frozen: JavaScript watchdogs never fire, so no script in the language loops",
